@@ -23,7 +23,13 @@ RunResult execForProp(const Plan& plan)
     if (plan.prop == "C20")
         return execMemoryDifferential(plan);
     if (plan.prop == "C19")
+    {
+#if defined(SIM_VARIANT_ASAN) || defined(SIM_VARIANT_PLAIN)
+        return execInstances(plan);
+#else
         return execThreads(plan);
+#endif
+    }
     return execPlan(plan);
 }
 
